@@ -192,6 +192,14 @@ func ruleSkipInventory(c *Ctx, r *Report, clause string, table map[string]string
 		}
 		r.add(clause, "skips", s.Key, desc, []string{s.Fn}, []string{w.pos(s.Pos)}, viol)
 	}
+	// small floors only guard against a scanner that saw nothing: a restructured conditional may
+	// legitimately remove the last explicit skip of a small package
+	if floor <= 5 {
+		floor = 0
+		if len(w.funcsOfPkgPrefixes(pkgPrefixes...)) == 0 {
+			floor = 1
+		}
+	}
 	if len(ss) < floor {
 		r.undecided(clause, "skips", "coverage:"+strings.Join(pkgPrefixes, ","), "", fmt.Sprintf("only %d loop skips found in %v (floor %d)", len(ss), pkgPrefixes, floor))
 	}
